@@ -15,6 +15,12 @@ CHECKS = {
  "C08": dict(cat="exploration", tech="exhaustive product enumeration (topology grid x 23k-signature database x threshold x tolerance grids) and all signature sets of size <=2 from a 96-signature pool, on the real Pebble and JSON scanners",
    text="The full product of topology, signature, threshold and tolerance grids is run through both real scanners and each alert list is checked for veto, range, threshold, order, threshold monotonicity and exact-implies-full; signature SETS (every subset of size <=2 of a pool, fresh database each) make alerts interact. Exhaustive over the stated grids.",
    note="Trusted: 'required call occurs' = substring match; the JSON scanner's tolerance cannot be varied through its API.", ref="3/C08"),
+ "C06": dict(cat="model_checking", tech="explicit-state breadth-first search over the real PebbleScanner (transitions = real API calls on an in-memory FS, state = physical key-space dump) to a fixpoint, plus exhaustive enumeration of all operation sequences up to depth 4/6 without state merging; query battery vs brute-force reference map after every transition",
+   text="All reachable states of the store under a 45-operation alphabet over colliding ID/hash/entropy pools are visited (quick: depth 3; thorough: fixpoint) and after every transition about 60 lookups are compared with brute force over a reference map; a second unit enumerates every sequence up to depth 4/6 over 12 operations with no merging so that LSM-internal state (shadowed versions, tombstones, flush/compaction) cannot hide behind equal key spaces. The model IS the implementation: every trace is an implementation run.",
+   note="Trusted: Pebble; detection.MatchSignature on the brute-force side; the merge of states that differ only in the count of false-positive notes.", ref="3/C06"),
+ "C07": dict(cat="fault_enumeration", tech="exhaustive crash-point enumeration: one run of each history (<=2/<=3 ops over 10) on a logging FS, every log prefix x write-back subsets x torn in-flight write replayed onto Pebble's strict MemFS, each distinct durable image recovered by the real open path and compared with the acknowledged / acknowledged+in-flight reference state",
+   text="Every file-system operation issued during every short mutation history is a crash point; for each, all admissible durable images (nothing, each subset of dirty files/directories, torn write) are rebuilt and reopened with the real code; the recovered store must answer the whole query battery like the state before or after the in-flight call and its physical indexes must be consistent with its records; interrupted rebuilds (also multi-chunk, 1100 signatures) must keep every record and heal on a second rebuild.",
+   note="Trusted: Pebble's strict MemFS as the crash model (per-file and per-directory sync granularity); Pebble's WAL/MANIFEST recovery is exercised for real but not explored inside. Database creation itself is outside (crash points start after the first open returned).", ref="3/C07"),
 }
 NOT_YET = {}
 ALL = ["C%02d" % i for i in range(1, 21)]
